@@ -1292,6 +1292,21 @@ package server
 //@   ensures C18.close.drained: implies(calls(Pop) >= 1, calls(Pop) == calls(ProcessCommad) + 1)
 //@   modifies all
 
+// C10: the admin commands that drop every hold of a database (FLUSHDB, FLUSHALL) act on the leader only; any other node - a
+// follower, but also a node that is voting, configuring or starting up and may become leader with its replicated holds - refuses
+//@ func (*LockDB).FlushDB
+//@   trusted drops every hold of the database (forced expiry and time-out of everything queued); the node's role and the admin object are not written
+//@   preserves F_server_SLock_, F_server_Admin_
+//@ func (*Admin).commandHandleFlushDBCommand
+//@   requires self != nil && self.slock != nil && serverProtocol != nil
+//@   at call FlushDB assert C10.flush.leader-only: self.slock.state == STATE_LEADER
+//@   modifies all
+//@ func (*Admin).commandHandleFlushAllCommand
+//@   requires self != nil && self.slock != nil && serverProtocol != nil
+//@   loop#1 invariant C10.flush.leader-only: self.slock == old(self.slock) && self.slock.state == STATE_LEADER
+//@   at call FlushDB assert C10.flush.leader-only: self.slock.state == STATE_LEADER
+//@   modifies all
+
 // C18: a connection whose first command fails still ends like any other connection: the protocol object created for it
 // (which may already hold wills registered by that first command) is closed before the accept path gives up on it
 //@ func (*Server).checkProtocol
